@@ -7,6 +7,7 @@ import Autog.Model.Phase5
 import Autog.Model.Layout
 import Autog.Model.Phase3
 import Autog.Model.SinkColoring
+import Autog.Model.NsPositioner
 import Autog.Properties.C04
 /-! T-fun: the models run on the phase-boundary snapshots of real `Layout` runs; the result is compared,
     in canonical form, with the next snapshot. Driver side. -/
@@ -42,7 +43,7 @@ def firstDiffOut (a b : Out) : String :=
       | some (x, y) => s!"edge {x.src}>{x.dst} vs {y.src}>{y.dst}: {x.pts.map (·.length)} vs {y.pts.map (·.length)} points"
       | none => ""
 
-def tfunLayout (cfg : Cfg) (es : InEdges) (comps : List (List (Int × G))) (real : Out) (logged : Option (List Int)) : List TRes := Id.run do
+def tfunLayout (cfg : Cfg) (es : InEdges) (comps : List (List (Int × G))) (real : Out) (logged : Option (List Int)) (pivots : List (Option (Int × Int))) : List TRes := Id.run do
   let mut out : List TRes := []
   let mut loopsOf : List (List Nat) := []
   let mut logQ : List Int := logged.getD []
@@ -72,6 +73,17 @@ def tfunLayout (cfg : Cfg) (es : InEdges) (comps : List (List (Int × G))) (real
       if cfg.p2 == 1 then
         let m := if a.nodes.size == 1 then buildLayers a else (execLongestPath a) >>= buildLayers
         out := out ++ [cmpG "T:phase2-longestpath" m b]
+      if cfg.p2 == 0 then
+        let thor : Nat := if cfg.thor < 0 then 28 else cfg.thor.toNat
+        if a.nodes.size == 1 then out := out ++ [cmpG "T:phase2-ns" (buildLayers a) b]
+        else
+          match execNetworkSimplex thor 0 1 a with
+          | .error e => out := out ++ [("T:phase2-ns", false, s!"model error {e}")]
+          | .ok (g, pv, mx) =>
+            out := out ++ [cmpG "T:phase2-ns" (buildLayers g) b]
+            match pivots.getD ci none with
+            | some (rp, rm) => out := out ++ [("T:ns-pivots", (pv : Int) == rp && (mx : Int) == rm, s!"model {pv}/{mx} pivots, code {rp}/{rm}")]
+            | none => pure ()
       out := out ++ [cmpG "T:layers" (buildLayers { b with layers := #[] }) b]
     | _, _ => pure ()
     -- phase 3: long edges are broken exactly as the model says; the heuristic only permutes positions
@@ -100,6 +112,10 @@ def tfunLayout (cfg : Cfg) (es : InEdges) (comps : List (List (Int × G))) (real
     | some a, some b =>
       if cfg.p4 == 1 || cfg.p4 == 2 then
         out := out ++ [cmpG (if cfg.p4 == 1 then "T:phase4-valign" else "T:phase4-packright") (phase4Simple cfg.p4 cfg.ns cfg.ls a) b]
+      else if cfg.p4 == 3 && a.nodes.size > 1 then
+        let thor : Nat := if cfg.thor < 0 then 28 else cfg.thor.toNat
+        let m := (execNsPositioner thor 4 cfg.ns a).map (assignYCoords cfg.ls)
+        out := out ++ [cmpG "T:phase4-ns" m b]
       else if cfg.p4 == 0 && a.nodes.size > 1 then
         let m := (execSinkColoring cfg.ns a).map fun (g, _) => assignYCoords cfg.ls g
         out := out ++ [cmpG "T:phase4-sinkcoloring" m b]
